@@ -349,6 +349,8 @@ struct ScaleRun {
     pend_del: Vec<u64>,
     rebuilds: usize,
     trace: Vec<String>,
+    /// frames retired by delete / update, with the embedding they had
+    retired: Vec<(u64, Vec<f32>)>,
 }
 
 /// (signature, what, model predicted the same index)
@@ -377,7 +379,8 @@ impl ScaleRun {
         let st = verif_hooks::verif_state(self.mem());
         let ids: Vec<u64> = st.vec_entries.iter().map(|e| e.0).collect();
         let fmt = |v: &[u64]| if v.is_empty() { "-".to_string() } else { v.iter().map(|x| x.to_string()).collect::<Vec<_>>().join(",") };
-        let mut model_same = true;
+        // (a difference from the simulator returns early as a disagreement: below the model agrees)
+        let model_same = true;
         if let Some(d) = drv.as_mut() {
             let m = d.ask("vsim-obs");
             let mine = format!("kind={} entries={}", st.vec_index_kind, fmt(&ids));
@@ -386,15 +389,15 @@ impl ScaleRun {
                 let cut = |s: &str| s.chars().take(300).collect::<String>();
                 return Err((format!("scale {at}: index representation / entries"), cut(&m_cut), cut(&mine)));
             }
-            model_same = true;
-            let _ = &mut model_same;
         }
-        // oracle 1: entries = active embedded frames (committed ones: everything is committed at a check)
+        // oracle 1: entries = active embedded frames (committed ones: everything is committed at a check).
+        // An `Hnsw` index lists no entries at all (`entries()` is empty by construction): there the
+        // oracle is findability alone (oracle 2), so that what gets reported is a LOST vector.
         let want: Vec<u64> = self.expect.keys().copied().collect();
-        if ids != want {
+        if st.vec_index_kind != "hnsw" && ids != want {
             let missing: Vec<u64> = want.iter().filter(|i| !ids.contains(i)).copied().collect();
             let extra: Vec<u64> = ids.iter().filter(|i| !want.contains(i)).copied().collect();
-            let sig = if st.vec_index_kind == "hnsw" || (ids.len() < want.len() && cfg!(feature = "hnsw_bench")) { "hnsw-index-loses-vectors-on-rebuild" } else { "scale-vec-index-differs-from-active-embedded-frames" };
+            let sig = if ids.len() < want.len() && cfg!(feature = "hnsw_bench") { "hnsw-index-loses-vectors-on-rebuild" } else { "scale-vec-index-differs-from-active-embedded-frames" };
             return Ok(Some((sig.into(), format!(
                 "{at}: representation `{}`, {} entries, {} active embedded frames; {} missing (first {:?}), {} that should not be there (first {:?})",
                 st.vec_index_kind, ids.len(), want.len(), missing.len(), missing.iter().take(5).collect::<Vec<_>>(), extra.len(), extra.iter().take(5).collect::<Vec<_>>()), model_same)));
@@ -411,9 +414,20 @@ impl ScaleRun {
                 }
                 Err(e) => return Ok(Some(("scale-search-vec-error".into(), format!("{at}: search_vec failed: {e}"), model_same))),
             }
-            match self.mem().frame_embedding(id) {
-                Ok(Some(e)) if e == q => {}
-                other => return Ok(Some(("scale-frame-embedding-differs".into(), format!("{at}: frame_embedding({id}) = {:?}", other.map(|o| o.map(|v| v.len()))), model_same))),
+            if st.vec_index_kind != "hnsw" {
+                match self.mem().frame_embedding(id) {
+                    Ok(Some(e)) if e == q => {}
+                    other => return Ok(Some(("scale-frame-embedding-differs".into(), format!("{at}: frame_embedding({id}) = {:?}", other.map(|o| o.map(|v| v.len()))), model_same))),
+                }
+            }
+        }
+        // a retired frame must not be findable with its own embedding
+        for (id, q) in self.retired.clone() {
+            if let Ok(h) = self.mem().search_vec(&q, 3) {
+                if h.iter().any(|x| x.frame_id == id) {
+                    let sig = if st.vec_index_kind == "hnsw" { "hnsw-index-keeps-retired-frames" } else { "scale-retired-frame-still-findable" };
+                    return Ok(Some((sig.into(), format!("{at}: frame {id} was deleted / superseded and search_vec(its embedding) still returns it (representation `{}`)", st.vec_index_kind), model_same)));
+                }
             }
         }
         Ok(None)
@@ -424,7 +438,7 @@ fn scale_case(n: usize, drv: &mut Option<Driver>) -> (Vec<String>, Result<Option
     let dir = tempfile::Builder::new().prefix("mvh-c14-scale-").tempdir().expect("tempdir");
     let path = dir.path().join("s.mv2");
     let mem = Memvid::create(&path).expect("create");
-    let mut s = ScaleRun { mem: Some(mem), path, _dir: dir, expect: BTreeMap::new(), next_id: 0, pend_put: vec![], pend_del: vec![], rebuilds: 0, trace: vec![] };
+    let mut s = ScaleRun { mem: Some(mem), path, _dir: dir, expect: BTreeMap::new(), next_id: 0, pend_put: vec![], pend_del: vec![], rebuilds: 0, trace: vec![], retired: vec![] };
     if let Some(d) = drv.as_mut() { d.ask(&format!("vsim-new hnsw={}", cfg!(feature = "hnsw_bench") as u8)); }
     let opts = |ts: i64| { let mut o = PutOptions::default(); o.timestamp = Some(ts); o.instant_index = false; o.auto_tag = false; o.extract_dates = false; o.extract_triplets = false; o.extraction_budget_ms = 0; o };
     macro_rules! try_check { ($at:expr) => { match s.check(drv, $at) { Ok(None) => {}, other => { let r = s.rebuilds; return (s.trace.clone(), other, r); } } } }
@@ -446,7 +460,7 @@ fn scale_case(n: usize, drv: &mut Option<Driver>) -> (Vec<String>, Result<Option
     let victims = [1u64, (n / 2) as u64];
     for v in victims {
         s.mem().delete_frame(v).expect("delete");
-        s.expect.remove(&v);
+        if let Some(e) = s.expect.remove(&v) { s.retired.push((v, e)); }
         s.pend_del.push(v);
         let committed = !verif_hooks::verif_state(s.mem()).dirty;
         s.settle(drv, committed);
@@ -454,7 +468,7 @@ fn scale_case(n: usize, drv: &mut Option<Driver>) -> (Vec<String>, Result<Option
     let carried = s.mem().frame_embedding(3).ok().flatten().is_some();
     s.mem().update_frame(3, None, opts(5000), None).expect("update");
     let old = s.expect.remove(&3).expect("frame 3 embedded");
-    s.expect.insert(s.next_id, old); // the client expects the embedding to be carried over
+    s.expect.insert(s.next_id, old); // the client expects the embedding to be carried over (frame 3 and its successor share it, so 3 is not probed as retired)
     s.pend_del.push(3);
     if carried { s.pend_put.push(s.next_id); }
     s.next_id += 1;
@@ -539,10 +553,11 @@ fn main() {
     let n_long: usize = args.extra.get("nlong").and_then(|s| s.parse().ok()).unwrap_or(if args.thorough { 5 } else { 1 });
     let scales: Vec<usize> = match args.extra.get("scale") {
         Some(s) => s.split(',').filter_map(|x| x.parse().ok()).collect(),
-        None => if args.thorough { vec![120, 999, 1000, 1001] } else { vec![120] },
+        None => if args.thorough { vec![120, 999, 1000, 1001] } else { vec![120, 1000] },
     };
 
-    for (label, ops) in corpus(&args) {
+    let no_corpus = args.extra.get("nocorpus").map(|s| s == "1").unwrap_or(false);
+    for (label, ops) in if no_corpus { vec![] } else { corpus(&args) } {
         let out = run_history(Source::Fixed(&ops), drv.as_mut(), &mut oracle, false);
         sum.branch("corpus");
         record(&mut sum, &args, &mut drv, &mut oracle, &label, out, budget);
